@@ -102,6 +102,19 @@ theorem boundSteps_replicate (n m : Nat) (v : Rat) (hm : 0 < m) (hnm : n ≤ m) 
   · have : m = n := by omega
     subst this; simp
 
+/-- the constructor's crossing test passes when `left ≤ right` step by step -/
+theorem no_cross_of_le : ∀ (l r : List Rat), List.Forall₂ (· ≤ ·) l r →
+    (l.zip r).any (fun p => decide (p.1 > p.2)) = false
+  | _, _, .nil => rfl
+  | _, _, .cons (a := a) (b := b) hab htl => by
+    simp only [List.zip_cons_cons, List.any_cons, gt_iff_lt, not_lt.mpr hab, decide_false, Bool.false_or]
+    exact no_cross_of_le _ _ htl
+
+theorem no_cross_replicate (n : Nat) (u v : Rat) (h : u ≤ v) :
+    ((List.replicate n u).zip (List.replicate n v)).any (fun p => decide (p.1 > p.2)) = false := by
+  rw [List.zip_replicate', List.any_replicate]
+  simp [not_lt.mpr h]
+
 /-- the constructor on two constant lists (possibly longer than `steps`): the constant p-box with
 the two values in order (the `left ≥ right` switch of either form exchanges them) -/
 theorem mk_replicate (n m : Nat) (lists : Bool) (u v : Rat) (hn : 0 < n) (hnm : n ≤ m) :
@@ -119,12 +132,14 @@ theorem mk_replicate (n m : Nat) (lists : Bool) (u v : Rat) (hn : 0 < n) (hnm : 
     rw [boundSteps_replicate n m v hm hnm]; simp only [ok_bind]
     rw [boundSteps_replicate n m u hm hnm]; simp only [ok_bind]
     simp [isIncreasing_replicate, ofIvl, min_eq_right h, max_eq_left h]
+    exact fun _ => h
   · simp only [h, decide_false, if_false, Bool.false_eq_true]
     show (boundSteps n (List.replicate m u) >>= fun l => boundSteps n (List.replicate m v) >>= fun r => _) = _
     rw [boundSteps_replicate n m u hm hnm]; simp only [ok_bind]
     rw [boundSteps_replicate n m v hm hnm]; simp only [ok_bind]
     have h' : u ≤ v := le_of_lt (not_le.mp h)
     simp [isIncreasing_replicate, ofIvl, min_eq_left h', max_eq_right h']
+    exact fun _ => h'
 
 /-! ## the combination rules on constant lists -/
 
@@ -312,10 +327,8 @@ theorem div_ofIvl_poi (n : Nat) (dep : Dep) (hd : dep = .p ∨ dep = .o ∨ dep 
     div n dep (ofIvl n a b) (ofIvl n c d) =
       .ok (ofIvl n (min4 (a*(1/d)) (a*(1/c)) (b*(1/d)) (b*(1/c))) (max4 (a*(1/d)) (a*(1/c)) (b*(1/d)) (b*(1/c)))) := by
   unfold div
-  show (recip n (ofIvl n c d) >>= fun r => numberOp n (· * ·) r 1 >>= fun r1 => mul n (swapPO dep) (ofIvl n a b) r1) = _
-  have hle := one_div_anti c d hcd h0
-  rw [recip_ofIvl n c d hn hcd h0, ok_bind, numberOp_ofIvl n _ _ _ _ hn, ok_bind]
-  simp only [mul_one, min_eq_left hle, max_eq_right hle]
+  rw [recipOne_ofIvl n c d hn hcd h0]
+  simp only
   apply mul_ofIvl_poi n (swapPO dep) _ a b _ _ hn
   rcases hd with h | h | h <;> subst h <;> simp [swapPO]
 
@@ -601,8 +614,8 @@ theorem div_ofIvl (n : Nat) (dep : Dep) (hd : dep ≠ .unknown) (a b c d : Rat) 
       .ok (ofIvl n (min4 (a*(1/d)) (a*(1/c)) (b*(1/d)) (b*(1/c))) (max4 (a*(1/d)) (a*(1/c)) (b*(1/d)) (b*(1/c)))) := by
   unfold div
   have hle := one_div_anti c d hcd h0
-  rw [recip_ofIvl n c d hn hcd h0, ok_bind, numberOp_ofIvl n _ _ _ _ hn, ok_bind]
-  simp only [mul_one, min_eq_left hle, max_eq_right hle]
+  rw [recipOne_ofIvl n c d hn hcd h0]
+  simp only
   exact mul_ofIvl n (swapPO dep) (swapPO_ne_unknown dep hd) a b _ _ hn hab hle
 
 /-! ## the constructor on well-formed bounds -/
@@ -656,7 +669,7 @@ theorem mk_wf (n : Nat) (lists : Bool) (l r : List Rat) (h : WF n ⟨l, r⟩) : 
     · simp only [Bool.false_eq_true, if_false, hll, hrl, if_true]; exact allGe_eq_of_le l r h.le
     · simp only [if_true]; exact lexGe_eq_of_le l r h.le
   simp only [key]
-  simp [boundSteps, hll, hrl, isIncreasing_of_pairwise l h.lsorted, isIncreasing_of_pairwise r h.rsorted]
+  simp [boundSteps, hll, hrl, isIncreasing_of_pairwise l h.lsorted, isIncreasing_of_pairwise r h.rsorted, no_cross_of_le l r h.le]
 
 theorem wf_ofIvl (n : Nat) (a b : Rat) (hab : a ≤ b) : WF n (ofIvl n a b) where
   llen := by simp [ofIvl]
@@ -1036,7 +1049,8 @@ theorem add_const_right_i (Q : PB) (hn : 0 < Q.left.length) (hQ : WF Q.left.leng
     rwa [hrl] at this
   rw [← hnq] at b1
   rw [b1, ok_bind, b2, ok_bind, map_add_comm, map_add_comm]
-  simp [hw.llen, hw.rlen, isIncreasing_of_pairwise _ hw.lsorted, isIncreasing_of_pairwise _ hw.rsorted, hQ.llen, hQ.rlen]
+  simp [hw.llen, hw.rlen, isIncreasing_of_pairwise _ hw.lsorted, isIncreasing_of_pairwise _ hw.rsorted, hQ.llen, hQ.rlen,
+    no_cross_of_le _ _ hw.le]
 
 
 end Pun.Hier
